@@ -2,7 +2,7 @@
    Property theorems only: each is closed by `exact <lemma>` (lemmas in Proofs/HolmP.v,
    Proofs/PenetranceP.v). *)
 From Coq Require Import ZArith List Bool Arith Lia Permutation Sorted.
-From CTM Require Import Base.Sx Model.Holm Model.Penetrance Proofs.HolmP.
+From CTM Require Import Base.Sx Model.Holm Model.Penetrance Proofs.HolmP Proofs.PenetranceP.
 Import ListNotations.
 Open Scope Z_scope.
 
@@ -80,3 +80,178 @@ Example c11_restricted_nonvacuous :
 Proof.
   split; [repeat constructor; lia|]. split; [lia|]. vm_compute; reflexivity.
 Qed.
+
+(* ------------------------------------------------------------------ *)
+(* The penetrance mask.  Scores are x/S.  Vocabulary (Proofs/PenetranceP.v):
+     above_floors th (q1, qd, f)    :=  q1_min <= q1 /\ qdiff_min <= qd /\ fold_min <= f
+     strictly_passes th (q1, qd, f) :=  q1_th < q1 /\ qdiff_th < qd /\ fold_th < f
+     margin S th                    :=  (th - min)^2 >= 1e-10 for the three criteria
+     crit th exact sc               :=  if exact then strictly_passes th sc else above_floors th sc
+     in_list mask g                 :=  no gene list, or gene g belongs to it *)
+
+(* soundness of approx_penetrance_test: an accepted gene is on or above every floor —
+   under the margin hypothesis (each strict threshold >= 1e-5 above its floor) *)
+Theorem c11_penetrance_sound : forall S th n_valid scores m g,
+  margin S th ->
+  approx_penetrance_test S th n_valid scores = POk m -> nth_error m g = Some true ->
+  exists sc, nth_error scores g = Some sc /\ above_floors th sc.
+Proof. exact approx_sound. Qed.
+Print Assumptions c11_penetrance_sound.
+
+(* F8: without the margin the faithful model REFUTES it: floor 2^-20 below the threshold,
+   gene 2^-20 below the floor, n_valid = 1 -> accepted as "absolutely valid" *)
+Theorem c11_sound_refuted :
+  exists S th n_valid scores m g sc,
+    0 < S /\ th_ordered th /\
+    approx_penetrance_test S th n_valid scores = POk m /\ nth_error m g = Some true /\
+    nth_error scores g = Some sc /\ ~ above_floors th sc.
+Proof. exact approx_sound_refuted. Qed.
+Print Assumptions c11_sound_refuted.
+
+(* completeness of approx_penetrance_test: every gene strictly above the three strict
+   thresholds is accepted, whichever branch (enough absolutely valid genes or not) is taken *)
+Theorem c11_penetrance_complete : forall S th n_valid scores m g sc,
+  0 < S ->
+  approx_penetrance_test S th n_valid scores = POk m ->
+  nth_error scores g = Some sc -> strictly_passes th sc -> nth_error m g = Some true.
+Proof. exact approx_complete. Qed.
+Print Assumptions c11_penetrance_complete.
+
+(* ------------------------------------------------------------------ *)
+(* score_differential_genes (both passes, gene list, n_cells_min).
+   Soundness: a gene recorded as valid for a pair =>
+     both clusters have at least n_cells_min cells, its (restricted) Holm-corrected p-value
+     is below p_th, it belongs to the gene list, and it is on or above every floor
+     (strictly above every strict threshold when exact penetrance is requested).
+   Hypotheses: the margin (F8), q1_min_th > -1 (genes outside the list get q1 = -1) and
+   q1_th > q1_min_th (enforced by the code in the approximate mode). *)
+Theorem c11_sound : forall st mask x v up g,
+  margin (st_S st) (st_th st) ->
+  - st_S st < q1_min (st_th st) -> q1_min (st_th st) < q1_th (st_th st) ->
+  score_differential_genes st mask x = POk (v, up) -> nth_error v g = Some true ->
+  st_n_min st <= pi_n1 x /\ st_n_min st <= pi_n2 x /\
+  (exists a, nth_error (approx_correct_ttest (pi_SP x) (pi_T x) (pi_p x)) g = Some a /\ a < pi_T x) /\
+  in_list mask g /\
+  exists sc, nth_error (pi_scores x) g = Some sc /\ crit (st_th st) (st_exact st) sc.
+Proof. exact sdg_sound. Qed.
+Print Assumptions c11_sound.
+
+(* Completeness: a gene of the list whose corrected p-value is below p_th and which passes
+   the three strict thresholds is recorded — in the first pass and in the relaxed second one *)
+Theorem c11_complete : forall st mask x v up g sc,
+  0 < st_S st -> length (pi_mean1 x) = length (pi_scores x) ->
+  score_differential_genes st mask x = POk (v, up) ->
+  st_n_min st <= pi_n1 x -> st_n_min st <= pi_n2 x ->
+  (exists a, nth_error (approx_correct_ttest (pi_SP x) (pi_T x) (pi_p x)) g = Some a /\ a < pi_T x) ->
+  in_list mask g ->
+  nth_error (pi_scores x) g = Some sc -> strictly_passes (st_th st) sc ->
+  nth_error v g = Some true.
+Proof. exact sdg_complete. Qed.
+Print Assumptions c11_complete.
+
+(* with exact penetrance requested nothing else is recorded *)
+Theorem c11_exact_iff : forall st mask x v up g,
+  st_exact st = true ->
+  margin (st_S st) (st_th st) ->
+  - st_S st < q1_min (st_th st) -> q1_min (st_th st) < q1_th (st_th st) -> 0 < st_S st ->
+  length (pi_mean1 x) = length (pi_scores x) ->
+  score_differential_genes st mask x = POk (v, up) ->
+  (nth_error v g = Some true <->
+   st_n_min st <= pi_n1 x /\ st_n_min st <= pi_n2 x /\
+   (exists a, nth_error (approx_correct_ttest (pi_SP x) (pi_T x) (pi_p x)) g = Some a /\ a < pi_T x) /\
+   in_list mask g /\
+   exists sc, nth_error (pi_scores x) g = Some sc /\ strictly_passes (st_th st) sc).
+Proof. exact sdg_exact_iff. Qed.
+Print Assumptions c11_exact_iff.
+
+Definition c11_st : settings :=
+  mk_settings 1024 (mk_th 512 102 717 102 1024 819) 2 false 3 1.
+Definition c11_x : pair_in :=
+  mk_pair_in 3 2 1024 10 [1; 600; 2; 1]
+             [(900, 800, 2048); (900, 800, 2048); (300, 200, 900); (50, 800, 2048)]
+             [0; 0; 900; 2048] [2048; 2048; 0; 0].
+Example c11_sound_complete_nonvacuous :
+  margin (st_S c11_st) (st_th c11_st) /\ - st_S c11_st < q1_min (st_th c11_st) /\
+  q1_min (st_th c11_st) < q1_th (st_th c11_st) /\
+  score_differential_genes c11_st None c11_x = POk ([true; false; true; false], [true; true; false; false]) /\
+  (* gene 0 strictly passes, gene 2 is only above the floors (recorded by the relaxation),
+     gene 1 fails the p-value, gene 3 is below the q1 floor *)
+  strictly_passes (st_th c11_st) (900, 800, 2048) /\ above_floors (st_th c11_st) (300, 200, 900) /\
+  ~ strictly_passes (st_th c11_st) (300, 200, 900) /\ ~ above_floors (st_th c11_st) (50, 800, 2048).
+Proof.
+  split; [unfold margin; cbn; lia|]. split; [cbn; lia|]. split; [cbn; lia|].
+  split; [vm_compute; reflexivity|].
+  unfold strictly_passes, above_floors; cbn. repeat split; lia.
+Qed.
+
+(* ------------------------------------------------------------------ *)
+(* direction = sign of the difference of the mean log2(CPM+1) *)
+Theorem c11_direction : forall st mask x v up,
+  score_differential_genes st mask x = POk (v, up) ->
+  (pi_n1 x <? st_n_min st) || (pi_n2 x <? st_n_min st) = false ->
+  up = map (fun ab => snd ab >? fst ab) (combine (pi_mean1 x) (pi_mean2 x)) /\
+  forall g m1 m2, nth_error (pi_mean1 x) g = Some m1 -> nth_error (pi_mean2 x) g = Some m2 ->
+     nth_error up g = Some (m2 >? m1).
+Proof. exact sdg_direction. Qed.
+Print Assumptions c11_direction.
+
+(* the up and down lists of a pair: membership, and no gene in both *)
+Theorem c11_up_down_exact : forall v u g,
+  (In g (fst (up_down (v, u))) <-> nth_error v g = Some true /\ nth_error u g = Some true) /\
+  (In g (snd (up_down (v, u))) <-> nth_error v g = Some true /\ nth_error u g = Some false).
+Proof. exact up_down_spec. Qed.
+Print Assumptions c11_up_down_exact.
+
+Theorem c11_no_gene_both_ways : forall v u g,
+  ~ (In g (fst (up_down (v, u))) /\ In g (snd (up_down (v, u)))).
+Proof. exact no_gene_both_ways. Qed.
+Print Assumptions c11_no_gene_both_ways.
+
+(* every valid gene is in exactly one of the two lists *)
+Theorem c11_up_down_cover : forall v u g, length u = length v ->
+  (nth_error v g = Some true <-> In g (fst (up_down (v, u))) \/ In g (snd (up_down (v, u)))).
+Proof. exact up_down_cover. Qed.
+Print Assumptions c11_up_down_cover.
+
+(* swapping the two clusters of a pair (cell counts and means exchanged; p-values, q1, qdiff
+   and |fold| are symmetric) leaves the validity mask unchanged and flips the direction of
+   every recorded gene, given log2_fold_min_th > 0 and log2_fold = |mean1 - mean2| *)
+Theorem c11_pair_swap : forall st mask x v up g,
+  margin (st_S st) (st_th st) ->
+  - st_S st < q1_min (st_th st) -> q1_min (st_th st) < q1_th (st_th st) ->
+  0 < fold_min (st_th st) -> fold_min (st_th st) < fold_th (st_th st) ->
+  length (pi_mean1 x) = length (pi_mean2 x) ->
+  (forall g q1 qd f m1 m2, nth_error (pi_scores x) g = Some (q1, qd, f) ->
+       nth_error (pi_mean1 x) g = Some m1 -> nth_error (pi_mean2 x) g = Some m2 -> f = Z.abs (m1 - m2)) ->
+  score_differential_genes st mask x = POk (v, up) ->
+  exists up', score_differential_genes st mask (swap_pair x) = POk (v, up') /\
+    (nth_error v g = Some true ->
+     forall b, nth_error up g = Some b -> nth_error up' g = Some (negb b)).
+Proof. exact sdg_pair_swap. Qed.
+Print Assumptions c11_pair_swap.
+
+Example c11_pair_swap_nonvacuous :
+  let x := mk_pair_in 3 2 1024 10 [1; 600; 2] [(900, 800, 2048); (900, 800, 2048); (300, 200, 900)]
+                      [0; 0; 900] [2048; 2048; 0] in
+  score_differential_genes c11_st None x = POk ([true; false; true], [true; true; false]) /\
+  score_differential_genes c11_st None (swap_pair x) = POk ([true; false; true], [false; false; true]).
+Proof. cbv zeta. split; vm_compute; reflexivity. Qed.
+
+(* ------------------------------------------------------------------ *)
+(* chunks: cutting the list of pairs into chunks of ANY size n_per >= 1, writing one sparse
+   table per chunk and concatenating them in order equals the table of all pairs *)
+Theorem c11_chunk_merge : forall n_per (rows : list (list nat)), (1 <= n_per)%nat ->
+  merge_sparse (map lookup_to_sparse (chunk_list (length rows) n_per rows)) 0 = lookup_to_sparse rows.
+Proof. exact chunk_merge. Qed.
+Print Assumptions c11_chunk_merge.
+
+(* hence the pair-major tables do not depend on the worker count *)
+Theorem c11_worker_independent : forall st gn gl np np' pairs,
+  find_markers st gn gl np pairs = find_markers st gn gl np' pairs.
+Proof. exact find_markers_workers. Qed.
+Print Assumptions c11_worker_independent.
+
+Example c11_chunk_merge_nonvacuous :
+  merge_sparse (map lookup_to_sparse (chunk_list 5 2 [[1; 4]; []; [0]; [2; 3; 5]; [7]]%nat)) 0
+  = ([0; 2; 2; 3; 6; 7]%nat, [1; 4; 0; 2; 3; 5; 7]%nat).
+Proof. vm_compute. reflexivity. Qed.
